@@ -317,8 +317,146 @@ fn chunk_commutes(pre: CState, buf: &[u8; 12], len: usize, k: usize) {
     kani::cover!(ok_a && na >= 2 && k > 0 && k < len, "two events, proper cut");
 }
 
-// @prop C09 C10 C11
+/// All events the reference semantics produces for one feed call.
+fn spec_feed_all(s: &mut CState, buf: &[u8], base: usize, out: &mut [Ev; 8], n: &mut usize, consumed: &mut usize) -> bool {
+    let mut pos = 0usize;
+    let mut guard = 0;
+    loop {
+        guard += 1;
+        if guard > 5 {
+            kani::assume(false);
+        }
+        match spec_step(s, buf, &mut pos) {
+            StepOut::NeedMore => {
+                *consumed = pos;
+                return true;
+            }
+            StepOut::Err => return false,
+            StepOut::Event(mut e) => {
+                if e.kind == 2 || e.kind == 5 {
+                    e.off += base;
+                }
+                if *n > 0 && (e.kind == 2 || e.kind == 5) && out[*n - 1].kind == e.kind && out[*n - 1].ty == e.ty
+                    && out[*n - 1].off + out[*n - 1].len == e.off
+                {
+                    out[*n - 1].len += e.len;
+                } else if !((e.kind == 2 || e.kind == 5) && e.len == 0) {
+                    out[*n] = e;
+                    *n += 1;
+                }
+            }
+        }
+    }
+}
+
+fn reference_chunking_case(arm: u8) {
+    let buf: [u8; 12] = kani::any();
+    let len: usize = kani::any();
+    let k: usize = kani::any();
+    kani::assume(len >= 1 && len <= 12 && k <= len);
+    let pre = any_state_in_arm_sym(arm);
+    let mut sa = pre;
+    let mut ea = [EV_NONE; 8];
+    let mut na = 0;
+    let mut ca = 0;
+    let ok_a = spec_feed_all(&mut sa, &buf[..len], 0, &mut ea, &mut na, &mut ca);
+    let mut sb = pre;
+    let mut eb = [EV_NONE; 8];
+    let mut nb = 0;
+    let mut c1 = 0;
+    let ok_b1 = spec_feed_all(&mut sb, &buf[..k], 0, &mut eb, &mut nb, &mut c1);
+    let mut ok_b = ok_b1;
+    let mut cb = c1;
+    if ok_b1 {
+        let mut c2 = 0;
+        ok_b = spec_feed_all(&mut sb, &buf[c1..len], c1, &mut eb, &mut nb, &mut c2);
+        cb = c1 + c2;
+    }
+    // a prefix alone never fails where the whole does not
+    assert!(ok_b1 || !ok_a);
+    assert!(ok_a == ok_b);
+    if ok_a {
+        assert!(ca == cb);
+        assert!(na == nb);
+        let i: usize = kani::any();
+        kani::assume(i < na);
+        assert!(ea[i] == eb[i]);
+        assert!(normalized(&sa) == normalized(&sb));
+    }
+    kani::cover!(ok_a && na >= 2 && k > 0 && k < len, "two events, proper cut");
+}
+
+// @prop C09 C11
 // @tier quick
+// @unit harness/src/spec/container.rs::spec_step (the reference semantics that every real parser step is proved equal to by the c10_step_* harnesses)
+// @sym any valid parser state, 12 buffer bytes, length 1..=12 (start state arm enumerated: one harness per arm), cut position 0..=length
+// @bound one buffer of <= 12 bytes cut once (header forms up to the 64-bit size need 16 bytes and are cut in the thorough harness on the real code)
+// @assume compositional argument: the c10_step_* harnesses show that one real parser step equals one reference step from every valid state for every buffer length; this harness shows on the reference semantics that feeding a buffer whole or as prefix + unconsumed rest gives the same merged events, successor state and consumption. Together: the real parser is chunking-independent for sequences of steps. The second half is a model-level lemma decided by the same solver.
+// @oblig same events (data fragments concatenated), same successor state, same total consumption; an error in one run is an error in the other; a proper prefix never produces an error that the whole buffer does not produce
+#[kani::proof]
+#[kani::unwind(14)]
+pub fn c09_reference_chunking_commutes_waiting_signature() {
+    reference_chunking_case(0);
+}
+
+// @prop C09 C11
+// @tier quick
+// @unit harness/src/spec/container.rs::spec_step (the reference semantics that every real parser step is proved equal to by the c10_step_* harnesses)
+// @sym any valid parser state, 12 buffer bytes, length 1..=12 (start state arm enumerated: one harness per arm), cut position 0..=length
+// @bound one buffer of <= 12 bytes cut once (header forms up to the 64-bit size need 16 bytes and are cut in the thorough harness on the real code)
+// @assume compositional argument: the c10_step_* harnesses show that one real parser step equals one reference step from every valid state for every buffer length; this harness shows on the reference semantics that feeding a buffer whole or as prefix + unconsumed rest gives the same merged events, successor state and consumption. Together: the real parser is chunking-independent for sequences of steps. The second half is a model-level lemma decided by the same solver.
+// @oblig same events (data fragments concatenated), same successor state, same total consumption; an error in one run is an error in the other; a proper prefix never produces an error that the whole buffer does not produce
+#[kani::proof]
+#[kani::unwind(14)]
+pub fn c09_reference_chunking_commutes_waiting_box_header() {
+    reference_chunking_case(1);
+}
+
+// @prop C09 C11
+// @tier quick
+// @unit harness/src/spec/container.rs::spec_step (the reference semantics that every real parser step is proved equal to by the c10_step_* harnesses)
+// @sym any valid parser state, 12 buffer bytes, length 1..=12 (start state arm enumerated: one harness per arm), cut position 0..=length
+// @bound one buffer of <= 12 bytes cut once (header forms up to the 64-bit size need 16 bytes and are cut in the thorough harness on the real code)
+// @assume compositional argument: the c10_step_* harnesses show that one real parser step equals one reference step from every valid state for every buffer length; this harness shows on the reference semantics that feeding a buffer whole or as prefix + unconsumed rest gives the same merged events, successor state and consumption. Together: the real parser is chunking-independent for sequences of steps. The second half is a model-level lemma decided by the same solver.
+// @oblig same events (data fragments concatenated), same successor state, same total consumption; an error in one run is an error in the other; a proper prefix never produces an error that the whole buffer does not produce
+#[kani::proof]
+#[kani::unwind(14)]
+pub fn c09_reference_chunking_commutes_waiting_jxlp_index() {
+    reference_chunking_case(2);
+}
+
+// @prop C09 C11
+// @tier quick
+// @unit harness/src/spec/container.rs::spec_step (the reference semantics that every real parser step is proved equal to by the c10_step_* harnesses)
+// @sym any valid parser state, 12 buffer bytes, length 1..=12 (start state arm enumerated: one harness per arm), cut position 0..=length
+// @bound one buffer of <= 12 bytes cut once (header forms up to the 64-bit size need 16 bytes and are cut in the thorough harness on the real code)
+// @assume compositional argument: the c10_step_* harnesses show that one real parser step equals one reference step from every valid state for every buffer length; this harness shows on the reference semantics that feeding a buffer whole or as prefix + unconsumed rest gives the same merged events, successor state and consumption. Together: the real parser is chunking-independent for sequences of steps. The second half is a model-level lemma decided by the same solver.
+// @oblig same events (data fragments concatenated), same successor state, same total consumption; an error in one run is an error in the other; a proper prefix never produces an error that the whole buffer does not produce
+#[kani::proof]
+#[kani::unwind(14)]
+pub fn c09_reference_chunking_commutes_in_aux_box() {
+    reference_chunking_case(3);
+}
+
+// @prop C09 C11
+// @tier quick
+// @unit harness/src/spec/container.rs::spec_step (the reference semantics that every real parser step is proved equal to by the c10_step_* harnesses)
+// @sym any valid parser state, 12 buffer bytes, length 1..=12 (start state arm enumerated: one harness per arm), cut position 0..=length
+// @bound one buffer of <= 12 bytes cut once (header forms up to the 64-bit size need 16 bytes and are cut in the thorough harness on the real code)
+// @assume compositional argument: the c10_step_* harnesses show that one real parser step equals one reference step from every valid state for every buffer length; this harness shows on the reference semantics that feeding a buffer whole or as prefix + unconsumed rest gives the same merged events, successor state and consumption. Together: the real parser is chunking-independent for sequences of steps. The second half is a model-level lemma decided by the same solver.
+// @oblig same events (data fragments concatenated), same successor state, same total consumption; an error in one run is an error in the other; a proper prefix never produces an error that the whole buffer does not produce
+#[kani::proof]
+#[kani::unwind(14)]
+pub fn c09_reference_chunking_commutes_in_codestream() {
+    reference_chunking_case(4);
+}
+
+fn any_state_in_arm_sym(arm: u8) -> CState {
+    any_state_in_arm(arm)
+}
+
+// @prop C09 C10 C11
+// @tier thorough
 // @unit jxl_bitstream::container::{ContainerParser::{feed_bytes,previous_consumed_bytes},ParseEvents::next} from the data states InCodestream and InAuxBox
 // @sym parser state within the arm (byte counters any value, brob type), 12 buffer bytes, length 1..=12, cut position 0..=length
 // @bound one buffer of <= 12 bytes cut once; at most 4 events per feed call
